@@ -58,6 +58,7 @@ PROPS = {
             {"name": "alignment", "pkg": "./c08", "tags": "binary_log verif", "run": "^TestBoundaryAlignment$"},
             {"name": "trees", "pkg": "./c08", "tags": "binary_log verif", "run": "^TestRapidTrees$", "rapid": T(3000, 60000), "shards": T(2, 16)},
             {"name": "regress", "pkg": "./c08", "tags": "binary_log verif", "run": "^TestRegress$"},
+            {"name": "concurrent-decode", "pkg": "./c17", "tags": "binary_log verif", "run": "^TestRapidConcurrentDecode$", "rapid": T(300, 6000), "shards": T(1, 8)},
         ],
         "assumptions": LP_ASSUME + ["both builds are compiled from /repo's current working tree; the JSON build runs as a co-process (harness/tools/lpexec)",
                                     "generator restricted to the classes the statement names (precision -1, 4/16-byte IPs, 6-byte MACs, minute-resolution zones, sub-second instants within +-2^32 s)"],
@@ -67,6 +68,8 @@ PROPS = {
     },
     "C09": {
         "jobs": [
+            {"name": "concurrent", "pkg": "./c09", "tags": "binary_log verif", "run": "^TestConcurrentPrograms$", "rapid": T(600, 12000), "shards": T(2, 16)},
+            {"name": "concurrent-race", "pkg": "./c09", "tags": "binary_log verif", "race": True, "run": "^TestConcurrentPrograms$", "rapid": T(150, 3000), "shards": T(2, 16)},
             {"name": "rapid", "pkg": "./c09", "tags": "binary_log verif", "run": "^TestRapidPrograms$", "rapid": T(6000, 100000), "shards": T(1, 16), "replay": "^TestReplay$"},
             {"name": "trees", "pkg": "./c09", "tags": "binary_log verif", "run": "^TestRapidTrees$", "rapid": T(4000, 100000), "shards": T(1, 16)},
             {"name": "boundaries", "pkg": "./c09", "tags": "binary_log verif", "run": "^(TestBoundaries|TestRegress)$"},
@@ -83,6 +86,8 @@ PROPS["C05"] = {
         {"name": "trees", "pkg": "./c05", "run": "^TestRapidTrees$", "rapid": T(20000, 120000), "shards": T(2, 16), "replay": "^TestReplay$"},
         {"name": "regress", "pkg": "./c05", "run": "^(TestRegress|TestKnown)$"},
         {"name": "context-branch", "pkg": "./c05", "run": "^TestContextBranchProbe$", "rapid": T(2000, 20000)},
+        {"name": "concurrent-trees", "pkg": "./c05", "run": "^TestConcurrentTrees$", "rapid": T(1500, 30000), "shards": T(2, 16)},
+        {"name": "concurrent-trees-race", "pkg": "./c05", "race": True, "run": "^TestConcurrentTrees$", "rapid": T(300, 6000), "shards": T(2, 16)},
     ],
     "assumptions": LP_ASSUME + ["UpdateContext only on a logger just produced by With() and not yet derived from (documented caution)",
                                 "branching happens at Logger values; two loggers derived from one intermediate Context value are probed separately (KF-C05-1)"],
@@ -98,6 +103,8 @@ PROPS["C17"] = {
         {"name": "structured", "pkg": "./c17", "tags": "binary_log verif", "run": "^TestRapidStructured$", "rapid": T(6000, 150000), "shards": T(2, 16), "rlimit_as": 12 * GiB, "death_is_violation": True, "replay": "^TestReplay$"},
         {"name": "mutations", "pkg": "./c17", "tags": "binary_log verif", "run": "^TestRapidMutations$", "rapid": T(4000, 100000), "shards": T(2, 16), "rlimit_as": 12 * GiB, "death_is_violation": True},
         {"name": "cuts", "pkg": "./c17", "tags": "binary_log verif", "run": "^(TestRapidCutPoints|TestRegress)$", "rapid": T(600, 3000), "shards": T(2, 16), "rlimit_as": 12 * GiB},
+        {"name": "concurrent", "pkg": "./c17", "tags": "binary_log verif", "run": "^TestRapidConcurrentDecode$", "rapid": T(300, 6000), "shards": T(1, 8)},
+        {"name": "concurrent-race", "pkg": "./c17", "tags": "binary_log verif", "race": True, "run": "^TestRapidConcurrentDecode$", "rapid": T(100, 2000), "shards": T(1, 8)},
         {"name": "fuzz", "pkg": "./c17", "tags": "binary_log verif", "run": "^FuzzDecoder$", "fuzz": "^FuzzDecoder$", "fuzztime": T(0, 240), "thorough_only": True, "rlimit_as": 0, "timeout": T(600, 1200)},
     ],
     "assumptions": ["allocation is measured per call with runtime/metrics as a screen and runtime.ReadMemStats (exact) when the screen exceeds the bound; bound = 64 KiB + 64 x len(input), deliberately loose",
@@ -115,6 +122,8 @@ PROPS["C04"] = {
         {"name": "random", "pkg": "./c04", "run": "^TestRandomTriples$", "rapid": T(50000, 2000000)},
         {"name": "inert", "pkg": "./c04", "run": "^TestFilteredEventsInert$", "rapid": T(20000, 300000), "shards": T(1, 16)},
         {"name": "inert-all", "pkg": "./c04", "run": "^TestFilteredEventsInertAllMethods$", "rapid": T(15, 200), "replay": "^TestReplay$"},
+        {"name": "gate-concurrent", "pkg": "./c04", "run": "^TestGateUnderConcurrentGlobalChanges$", "rapid": T(40, 600), "shards": T(1, 4)},
+        {"name": "gate-concurrent-race", "pkg": "./c04", "race": True, "run": "^TestGateUnderConcurrentGlobalChanges$", "rapid": T(15, 200), "shards": T(1, 4)},
     ],
     "assumptions": ["the global level is process state: jobs run in separate processes and restore TraceLevel",
                     "Fatal paths are observed by re-executing the test binary (exit status and output)",
